@@ -43,6 +43,9 @@ MUT = {
  "M33_always_call": ("core.py", "            if len(lrep):\n                row_idx[0] = 1 + encoding._assemble_objects(", "            if True:\n                row_idx[0] = 1 + encoding._assemble_objects("),
  "M34_lead_only_if_value": ("core.py", "                assign[row_idx[0] - 1].extend(items)\n", "                if nv:\n                    assign[row_idx[0] - 1].extend(items)\n"),
  "M35_lead_no_dict": ("core.py", "                vals = iter(dic[val[:nv]] if d else val[:nv])", "                vals = iter(val[:nv])"),
+ "M37_no_refusal_two_levels": ("core.py", "    if schema_helper.max_repetition_level(path) > 1:", "    if False:"),
+ "M38_v2_empty_page_not_skipped": ("core.py", "    if len(repi) == 0:\n        return False", "    if len(repi) == 0:\n        return True"),
+ "M39_v2_inside_row_not_refused": ("core.py", "    if repi[0] != 0:\n        raise ValueError", "    if False:\n        raise ValueError"),
  "M36_stats_null_count": ("core.py", None, None),
  "N1_rename_local": ("core.py", None, None),
  "N2_reorder": ("core.py", "            null, ldefi, lmax_defi = _nested_levels(schema_helper, cmd.path_in_schema, defi, max_defi)\n            null_val = (se.repetition_type !=\n                        parquet_thrift.FieldRepetitionType.REQUIRED)\n",
